@@ -432,6 +432,29 @@ theorem create_token_bound_never_fires {cur : CMarket} {plen slen : Nat} {accs :
   simp only [maxSteps, maxTokens, List.length_nil] at *
   omega
 
+/-- **the payout leaves the market the path ends in**: whenever `find_last_market` selects an account, it is
+the account of the LAST market of the declared path (the current market for an empty path) — the market in
+which the router left the output (`swapOneSide_follows_path`: the last executed hop is the last declared
+market); symmetrically `find_first_market` selects the FIRST market, where the input is recorded. It fails
+exactly when that market is neither supplied nor the current market. -/
+theorem find_end_market_spec (first : Bool) (path : List Nat) (cur : Nat) (supplied : List Nat) :
+    (∀ r, findEndMarket first path cur supplied = some r →
+      r.getD cur = ((if first then path.head? else path.getLast?).getD cur)) ∧
+    (findEndMarket first path cur supplied = none ↔
+      ∃ t, (if first then path.head? else path.getLast?) = some t ∧ t ∉ supplied ∧ t ≠ cur) := by
+  unfold findEndMarket
+  cases h : (if first then path.head? else path.getLast?) with
+  | none => simp
+  | some t =>
+    by_cases hs : t ∈ supplied
+    · simp [hs]
+    · by_cases hc : t = cur
+      · subst hc; simp [hs]
+      · simp [hs, hc]
+
+example : findEndMarket false [1, 2, 3] 0 [1, 2, 3] = some (some 3) ∧ findEndMarket false [1, 0] 0 [1] = some none
+    ∧ findEndMarket true [1, 0] 0 [1] = some (some 1) ∧ findEndMarket false [1, 2] 0 [1] = none := by decide
+
 /-! non-vacuity: a two-step primary path 10 → 11 → 12 and a one-step secondary path is accepted;
 repeating an account, or a pure market, is not -/
 example : validateAndInit ⟨50, 0, 9, 10, 11, true⟩ 2 1
